@@ -435,13 +435,18 @@ class BitArray(Bits):
         """
         if pos is None:
             # Set all bits to either 1 or 0
-            self._setint(-1 if value else 0)
+            if len(self) != 0:
+                self._setint(-1 if value else 0)
             return
         if not isinstance(pos, abc.Iterable):
             pos = (pos,)
         v = 1 if value else 0
-        if isinstance(pos, range):
-            self._bitstore.__setitem__(slice(pos.start, pos.stop, pos.step), v)
+        if isinstance(pos, range) and len(pos) > 0 and 0 <= pos[0] < len(self) and 0 <= pos[-1] < len(self):
+            # Fast path for a range that is wholly inside the bitstring - use the equivalent slice.
+            if pos.step > 0:
+                self._bitstore.__setitem__(slice(pos[0], pos[-1] + 1, pos.step), v)
+            else:
+                self._bitstore.__setitem__(slice(pos[0], pos[-1] - 1 if pos[-1] > 0 else None, pos.step), v)
             return
         for p in pos:
             self._bitstore[p] = v
